@@ -14,6 +14,8 @@ def run(res, replay=None):
     import translate_step; (res.proof is not None) and translate_step.run(res.proof, pid=res.pid, tie='loops')
     # structural tie of the moment assembly (accumulate: centring, permutation average): translate the CURRENT source and re-check proofs/GenMomentsEquiv.v
     import translate_step; (res.proof is not None) and translate_step.run(res.proof, pid=res.pid, tie='moments')
+    # pinned reading of the marginal distributions (demes / loci: get_cov, cov, corr; mean / var / std / m2) and of the density pdf: re-check the CURRENT source against it and proofs/GenMarginalsEquiv.v
+    import translate_step; (res.proof is not None) and translate_step.run(res.proof, pid=res.pid, tie='marginals')
     rng = random.Random(res.seed)
     res.rule = ('marginals stream: structured configurations with 2-3 demes (n<=4, three models, 1-2 epochs) and two-locus '
                 'configurations: per-population means sum to the mean, covariance entries sum to the variance, symmetry, '
